@@ -32,6 +32,15 @@ type c14Errno int
 
 func (e c14Errno) Error() string { return fmt.Sprintf("boom-errno-%d", int(e)) }
 
+// errors whose concrete type cannot be a map key
+type c14SliceErr []string
+
+func (e c14SliceErr) Error() string { return "boom-slice:" + strings.Join(e, ",") }
+
+type c14FieldsErr struct{ Fields []string }
+
+func (e c14FieldsErr) Error() string { return "boom-fields:" + strings.Join(e.Fields, ",") }
+
 type c14StrErr string
 
 func (e c14StrErr) Error() string { return "boom-strerr:" + string(e) }
@@ -72,6 +81,10 @@ func (w *c14World) err() error {
 		return c14Errno(0)
 	case "empty-string-kind":
 		return c14StrErr("")
+	case "slice-typed":
+		return c14SliceErr{"name", "age"}
+	case "struct-with-slice":
+		return c14FieldsErr{Fields: []string{"name"}}
 	case "percent": // messages that a printf-style writer would mangle
 		return errors.New("disk is 100% full")
 	case "percent-verbs":
@@ -394,7 +407,7 @@ func c14Values(shape string, thorough bool) []c14Vals {
 	for b := 0; b < 256; b++ {
 		strs = append(strs, string([]byte{byte(b)}))
 	}
-	errs := []string{"nil", "errors.New", "struct", "pointer", "empty-struct", "zero-int", "empty-string-kind", "percent", "percent-verbs"}
+	errs := []string{"nil", "errors.New", "struct", "pointer", "empty-struct", "zero-int", "empty-string-kind", "percent", "percent-verbs", "slice-typed", "struct-with-slice"}
 	codes := []int{200}
 	hasInt := strings.HasPrefix(shape, "(int")
 	if hasInt {
